@@ -167,6 +167,19 @@ for _p, _t in EXTRA4.items():
     if _p in CLAIMED:
         CLAIMED[_p]["text"] += _t
 
+EXTRA5 = {
+ "C01": " After the second defect hunt: LIKE / NOT LIKE match a number by its decimal text (c01.like-escape/decimal-text, fixed defect 7743328).",
+ "C02": " After the second defect hunt: DIV is Trunc(L / R) of the doubles — the reference no longer repeats the tree's formula (c02.arith-table, fixed defect 50d25e1); every builder of a column name (found by its reads of ColName.Qualifier, including the join's own column reader) keeps the outer qualifier (c02.column-name-complete, fixed defect 9662b22).",
+ "C03": " After the second defect hunt: the path writer of the group emission takes its keys from the selector parser and stores under the raw text of a name only on a condition that comes from the parser (c03.group-row-addressable, fixed defect de59be0); known finding: a grouping column with an index step reads NULL in the output row (c03.group-row-addressable @ SetPath/non-key-step).",
+ "C04": " After the second defect hunt: c02.column-name-complete on the join's column reader (three-part column in ON).",
+ "C05": " After the second defect hunt: two NULL values of a key tie and the remaining keys decide, in both forms of the comparator (c05.less-table, fixed defect d01275e).",
+ "C09": " After the second defect hunt: {k|number} leaves a missing key NULL (c09.pipe-number, fixed defect b3a27dd); known finding: the flatten depth of a bracket group counts written dimensions (c09.dimension-walk @ SelectMany/flatten-depth).",
+ "C18": " After the second defect hunt: CONSTANT and DATERANGE render numbers through TextOf (c18.select-contracts, fixed defects a565626, c89a2cd).",
+}
+for _p, _t in EXTRA5.items():
+    if _p in CLAIMED:
+        CLAIMED[_p]["text"] += _t
+
 _pending = "rule set for this property is not implemented yet in this round (see DESIGN.md section 2 for the planned structural rules)"
 for p in ["C01","C02","C03","C04","C05","C06","C07","C09","C10","C11","C12","C13","C14","C15","C16","C17","C18","C19","C20"]:
     if p not in CLAIMED:
